@@ -75,8 +75,12 @@ pub fn c07_prefix_case(ctx: &Ctx, env: &RealEnv, dir: &Path, case: u64, seed: u6
         copy_tree(&golden, dir);
         std::fs::write(w.db_path(), &full[..n]).unwrap();
         let parsed = crate::dbfmt::parse_db(&full[..n]);
-        let k = crate::dbfmt::named_builds(&parsed).len();
-        w.st.records = all_records[..k].to_vec();
+        let named = crate::dbfmt::named_builds(&parsed);
+        let k = named.len();
+        // the model's records that survive are those whose build record is complete in the prefix
+        // (matched by output names: n2 writes records in the order it processes completions, which
+        // need not be the order in which the commands logged their end)
+        w.st.records = named.iter().filter_map(|nb| all_records.iter().rev().find(|r| r.outs == nb.outs).cloned()).collect();
         scan(&mut w);
         let inv2 = RInv { j: Some(4), ..Default::default() };
         let pred = super::predict_inv(&w, &inv2.as_sim_inv());
